@@ -75,10 +75,32 @@ def _to_callables(context, trailer):
     return values
 
 
+def _unpack_given_arguments(arguments):
+    """
+    Works like ``arguments.unpack()``, but leaves out the ``*args`` and
+    ``**kwargs`` parameters of the surrounding function that are just passed
+    on. These are the arguments the signature is made for. Inferring them would
+    search for calls of that function (dynamic params) and remove the
+    parameters that happen to be used there.
+    """
+    from jedi.inference.arguments import TreeArguments, unpack_arglist
+    from jedi.inference.names import TreeNameDefinition
+
+    context = arguments.context
+    for star_count, node in unpack_arglist(arguments.argument_node):
+        if star_count and node.type == 'name' and any(
+                getattr(n, 'star_count', 0) == star_count
+                for n in TreeNameDefinition(context, node).goto()):
+            continue
+        if node.parent.type == 'argument':
+            node = node.parent
+        yield from TreeArguments(context.inference_state, context, node).unpack()
+
+
 def _remove_given_params(arguments, param_names):
     count = 0
     used_keys = set()
-    for key, _ in arguments.unpack():
+    for key, _ in _unpack_given_arguments(arguments):
         if key is None:
             count += 1
         else:
